@@ -319,6 +319,22 @@ def fixed_programs():
                                                     "terms": [[[1], [1, 2]], [[2], [0, 1]]]}}],
          "kw": {"values": {"q0": 2}}, "extra": True},
         {"fn": "cancel-then-reduce", "args": [P3], "kw": {"how": "sum"}, "extra": True},
+        # an unused LEADING name: positions and names must keep their meaning between the steps
+        {"fn": "derivative", "args": [{"$p": {"names": ["q0", "q1", "q2"], "shape": [], "kind": "i", "retain": False,
+                                              "terms": [[[0, 2, 1], [1]], [[0, 0, 3], [1]]]}}],
+         "kw": {"vars": [1, 1]}, "extra": True},
+        {"fn": "derivative", "args": [{"$p": {"names": ["q0", "q1", "q2"], "shape": [2], "kind": "i", "retain": False,
+                                              "terms": [[[0, 2, 1], [1, 2]], [[0, 0, 3], [1, 0]]]}}],
+         "kw": {"vars": ["q1", "q0"]}, "extra": True},
+        # multivariate, non-exact division: the result must not depend on the sort options
+        {"fn": "poly_divmod", "args": [{"$p": {"names": ["q0", "q1"], "shape": [], "kind": "i", "retain": False,
+                                               "terms": [[[2, 0], [1]], [[0, 2], [1]]]}},
+                                       {"$p": {"names": ["q0", "q1"], "shape": [], "kind": "i", "retain": False,
+                                               "terms": [[[1, 0], [1]], [[0, 1], [1]]]}}], "kw": {}, "extra": True},
+        {"fn": "op-mod", "args": [{"$p": {"names": ["q0", "q1"], "shape": [2], "kind": "i", "retain": False,
+                                          "terms": [[[2, 1], [1, 0]], [[0, 2], [1, 3]], [[1, 0], [0, 1]]]}},
+                                  {"$p": {"names": ["q0", "q1"], "shape": [], "kind": "i", "retain": False,
+                                          "terms": [[[1, 0], [1]], [[0, 1], [2]]]}}], "kw": {}, "extra": True},
         {"fn": "gradient", "args": [P1], "kw": {}, "extra": True}, {"fn": "hessian", "args": [P2], "kw": {}, "extra": True},
         {"fn": "call-partial", "args": [P1], "kw": {"values": {"q0": 2}}, "extra": True},
         {"fn": "call-partial", "args": [P1], "kw": {"values": {"q0": 2, "q1": -1, "q2": 3}}, "extra": True},
